@@ -5,7 +5,7 @@
   display clause `C19_eq_display` rests on `C01_display`.  The reflected comparison `s == f` reaching
   `FmtStr.__eq__` and `hash` of a str are CPython facts (correspondence only).
   `C19_repr_partial` (full statement `C19_repr_full_statement`; open finding D27 with `C19_repr_witness`): for every
-  FmtStr with at least one run whose run texts contain no `ESC [` pair (such a literal IS re-parsed by `fmtstr`
+  FmtStr with at least one run whose FORMATTED run texts contain no `ESC [` pair (such a literal IS re-parsed by `fmtstr`
   when the repr is evaluated - the model's evaluator uses the real `from_str` model), `repr(f)` is an expression over string
   literals, `+` and the fmtfuncs names of the REGENERATED table, and evaluating it gives a value (a FmtStr, or
   a plain str when nothing is formatted) with the same characters and the same displayed formatting.
@@ -190,15 +190,16 @@ theorem namedAtts_good {lower : String → String} (hl : LowerOk lower) (a : Att
     · simp at hp; subst hp; exact st ("underline", .underline) (by decide)
     · simp at hp
 
-theorem eval_wrap (md : Nat) (lower : String → String) (s : Text) (hs : hasEscBracket s = false)
-    (L : List (String × Atts)) (hg : ∀ p ∈ L, Good lower p) :
+theorem eval_wrap (md : Nat) (lower : String → String) (s : Text)
+    (L : List (String × Atts)) (hs : L ≠ [] → hasEscBracket s = false) (hg : ∀ p ∈ L, Good lower p) :
     evalExpr md lower (wrapCalls (L.map Prod.fst) (.lit s))
       = some (if L.isEmpty then .str s else .fmt [⟨s, accL L⟩]) := by
   induction L with
   | nil => simp [wrapCalls, evalExpr]
   | cons p rest ih =>
     obtain ⟨bound, hb, hp⟩ := hg p (List.mem_cons_self ..)
-    have ih := ih (fun q hq => hg q (List.mem_cons_of_mem _ hq))
+    have hs : hasEscBracket s = false := hs (by simp)
+    have ih := ih (fun _ => hs) (fun q hq => hg q (List.mem_cons_of_mem _ hq))
     simp only [wrapCalls, List.map_cons, List.foldr_cons] at ih ⊢
     simp only [evalExpr, ih]
     have hacc : accL (p :: rest) = (accL rest).extend p.2 := rfl
@@ -209,9 +210,9 @@ theorem eval_wrap (md : Nat) (lower : String → String) (s : Text) (hs : hasEsc
       simp [callFmtfunc, hb, fmtfuncApply, fmtstrApply, hp, copyWithNewAtts, hacc]
 
 theorem chunk_eval (md : Nat) (lower : String → String) (hl : LowerOk lower) (c : Chunk)
-    (hs : hasEscBracket c.s = false) :
+    (hs : namedAtts c.atts ≠ [] → hasEscBracket c.s = false) :
     ∃ e v, reprPart c = some e ∧ evalExpr md lower e = some v ∧ v.effCells = effCells [c] := by
-  refine ⟨_, _, ?_, eval_wrap md lower c.s hs (namedAtts c.atts) (namedAtts_good hl c.atts), ?_⟩
+  refine ⟨_, _, ?_, eval_wrap md lower c.s (namedAtts c.atts) hs (namedAtts_good hl c.atts), ?_⟩
   · simp [reprPart, reprNames_eq]
   · have ha := acc_eff c.atts
     by_cases he : (namedAtts c.atts).isEmpty = true
@@ -237,14 +238,16 @@ def C19_repr_full_statement : Prop :=
   ∀ (md : Nat) (lower : String → String), LowerOk lower → ∀ f : FmtStr, f ≠ [] →
     ∃ e v, reprAst f = some e ∧ evalExpr md lower e = some v ∧ v.effCells = effCells f
 
-/-- PARTIAL (open finding D27): the full statement for every FmtStr whose run texts contain no `ESC [` pair.
-    A run text with `ESC [` is written into the repr as a plain literal, and `fmtstr` re-parses it as escape
-    sequences when the repr is evaluated (`C19_repr_witness`). The hypothesis is exactly the complement of that
-    footprint. -/
+/-- PARTIAL (open finding D27): the full statement for every FmtStr in which no FORMATTED run - a run whose repr
+    is wrapped in at least one helper call, `namedAtts c.atts ≠ []`: a colour, or a style that is `True` - has a text
+    containing an `ESC [` pair.  Such a text is written into the repr as a plain literal and `fmtstr` re-parses it as
+    escape sequences when the helper is called (`C19_repr_witness`, `C19_repr_full_statement_false`).  Unformatted
+    runs with `ESC [` are plain literals in the repr and round-trip.  The hypothesis is exactly the complement of the
+    finding's footprint. -/
 theorem C19_repr_partial (md : Nat) (lower : String → String) (hl : LowerOk lower) (f : FmtStr) (hne : f ≠ [])
-    (hclean : ∀ c ∈ f, hasEscBracket c.s = false) :
+    (hclean : ∀ c ∈ f, namedAtts c.atts ≠ [] → hasEscBracket c.s = false) :
     ∃ e v, reprAst f = some e ∧ evalExpr md lower e = some v ∧ v.effCells = effCells f := by
-  have parts : ∀ (g : FmtStr), (∀ c ∈ g, hasEscBracket c.s = false) →
+  have parts : ∀ (g : FmtStr), (∀ c ∈ g, namedAtts c.atts ≠ [] → hasEscBracket c.s = false) →
       ∃ es, g.mapM reprPart = some es ∧
         ∀ e v, evalExpr md lower e = some v →
           ∃ w, evalExpr md lower (plusAll e es) = some w ∧ w.effCells = v.effCells ++ effCells g := by
@@ -278,6 +281,19 @@ theorem C19_repr_witness :
         (evalExpr Generated.intMaxStrDigits idl)
       = some (.fmt [⟨['x'], { fg := some 1, bold := some true }⟩]) := by
   decide +kernel
+
+/-- The full statement is FALSE for the model (hence the finding, not a gap in the proof). -/
+theorem C19_repr_full_statement_false : ¬ C19_repr_full_statement := by
+  intro h
+  obtain ⟨e, v, h1, h2, h3⟩ := h Generated.intMaxStrDigits idl (fun _ _ _ => ⟨rfl, rfl⟩)
+    [⟨[Curtsies.ESC, '[', '3', '1', 'm', 'x'], { bold := some true }⟩] (by decide)
+  have w := C19_repr_witness
+  rw [h1] at w
+  simp only [Option.bind_some] at w
+  rw [h2] at w
+  injection w with w
+  subst w
+  revert h3; decide +kernel
 
 /-- `LowerOk` is satisfiable (the driver evaluates with this `lower`). -/
 theorem C19_lowerOk_idl : LowerOk idl := fun _ _ _ => ⟨rfl, rfl⟩
